@@ -407,9 +407,9 @@ PROPS.update({
               assumptions=["the bound for Sleep includes the constant maxPingrespWait = 60 s of the code (regenerated)", "goroutine exit is measured, not proved"]),
     "C33": cl("C33",
               "Lean theorems c33_ticker_follows_state, c33_tick, c33_stop_on_leaving_active + c33_no_timer_after_stop (no keep-alive retransmission while asleep / disconnected), "
-              "c33_keepalive_result_private, c33_state_change_never_blocks for ALL states of the client model; whole-session statements (a ping per period while active; none "
+              "c33_keepalive_result_private, c33_missed_tick_served, c33_ping_joins, c33_state_change_never_blocks for ALL states of the client model; whole-session statements (a ping per period while active; none "
               "while asleep or disconnected) checked by the monitor ClientSpec.c33; tie: client suite (keepalive profile)",
-              "theorems c33_* (client model); monitor c33 on implementation traces; one known finding (user Ping() takes over the keep-alive exchange)"),
+              "theorems c33_* (client model, incl. apiPing_open / c33_ping_joins for the repaired sharing of the PINGREQ slot); monitor c33 on implementation traces"),
 })
 # client halves of properties that speak about both sides
 for _p, _note in (("C06", "client half: theorems c06_client_*; monitor ClientSpec.c06 (collide profile)"),
